@@ -1,7 +1,7 @@
 #!/bin/sh
 # ./run_all.sh quick|thorough [ids...]  -- runs every registered check, prints a summary
 tier=${1:-quick}; shift
-cd "$(dirname "$0")"
+cd "$(dirname "$0")"; mkdir -p build/out
 ids="$@"
 [ -z "$ids" ] && ids=$(python3 -c "
 import json;print(' '.join(c['property_id'] for c in json.load(open('MANIFEST.json'))['checks']))")
